@@ -2,6 +2,7 @@ import UVerif.Driver.Core
 import UVerif.Driver.Posit
 import UVerif.Driver.Quire
 import UVerif.Driver.Except
+import UVerif.Driver.Text
 
 namespace UVerif.Driver
 
@@ -13,6 +14,7 @@ def lookupHandler (fam : String) : Option Handler :=
   | "pconv" => some pconvHandler
   | "thr" => some thrHandler
   | "exc" => some excHandler
+  | "text" => some textHandler
   | _ => none
 
 end UVerif.Driver
